@@ -132,6 +132,8 @@ package oauth2
 //@ func (*AuthorizeExplicitGrantHandler).HandleTokenEndpointRequest
 //@   modifies anyheap
 //@   protects [C19.no-write-to-store-owned-session] shared
+//@   protects [C07.stored-expiries-are-not-rewritten] shared
+//@   protects [C02.stored-grant-is-not-rewritten] shared
 //@   let code = formget(old(request.GetRequestForm()), "code")
 //@   let sig  = old(c.AuthorizeCodeStrategy.AuthorizeCodeSignature(ctx, code))
 //@   let used = old(code_exists[sig]) && !old(code_active[sig])
@@ -246,6 +248,8 @@ package oauth2
 //@   assert @call(GetRefreshTokenSession)#1 [C20.storage-keys-are-signatures] $arg2 == c.RefreshTokenStrategy.RefreshTokenSignature(ctx, refresh)
 //@   modifies anyheap
 //@   protects [C19.no-write-to-store-owned-session] shared
+//@   protects [C07.stored-expiries-are-not-rewritten] shared
+//@   protects [C02.stored-grant-is-not-rewritten] shared
 //@   let refresh = formget(old(request.GetRequestForm()), "refresh_token")
 //@   let sig  = old(c.RefreshTokenStrategy.RefreshTokenSignature(ctx, refresh))
 //@   let reuse = old(ref_exists[sig]) && !old(ref_active[sig])
@@ -329,6 +333,7 @@ package oauth2
 //@ func (*HMACSHAStrategyUnPrefixed).ValidateAccessToken
 //@   requires h != nil && r != nil && h.Enigma != nil
 //@   ensures [C07.access-token-expiry] err == nil ==> $now >= old($now) && !expired_at(r.GetSession().GetExpiresAt(fosite.AccessToken), r.GetRequestedAt(), h.Config.GetAccessTokenLifespan(ctx), $now)
+//@   ensures [C09.active-only-while-unexpired] err == nil ==> $now >= old($now) && !expired_at(r.GetSession().GetExpiresAt(fosite.AccessToken), r.GetRequestedAt(), h.Config.GetAccessTokenLifespan(ctx), $now)
 //@   ensures [C06.access-token-authentic] err == nil ==> authentic(h.Enigma, token)
 
 //@ func (*HMACSHAStrategyUnPrefixed).ValidateAuthorizeCode
@@ -341,6 +346,7 @@ package oauth2
 //@ func (*HMACSHAStrategyUnPrefixed).ValidateRefreshToken
 //@   requires h != nil && r != nil && h.Enigma != nil
 //@   ensures [C07.refresh-token-expiry] err == nil && r.GetSession().GetExpiresAt(fosite.RefreshToken) != 0 ==> $now >= old($now) && !(r.GetSession().GetExpiresAt(fosite.RefreshToken) < $now)
+//@   ensures [C09.active-only-while-unexpired] err == nil && r.GetSession().GetExpiresAt(fosite.RefreshToken) != 0 ==> $now >= old($now) && !(r.GetSession().GetExpiresAt(fosite.RefreshToken) < $now)
 //@   ensures [C06.refresh-token-authentic] err == nil ==> authentic(h.Enigma, token)
 
 //@ func (*HMACSHAStrategyUnPrefixed).AccessTokenSignature
@@ -391,6 +397,7 @@ package oauth2
 //@ func (*HMACSHAStrategy).ValidateAccessToken
 //@   requires h != nil && r != nil && h.HMACSHAStrategyUnPrefixed != nil && h.HMACSHAStrategyUnPrefixed.Enigma != nil
 //@   ensures [C07.access-token-expiry] err == nil ==> $now >= old($now) && !expired_at(r.GetSession().GetExpiresAt(fosite.AccessToken), r.GetRequestedAt(), h.HMACSHAStrategyUnPrefixed.Config.GetAccessTokenLifespan(ctx), $now)
+//@   ensures [C09.active-only-while-unexpired] err == nil ==> $now >= old($now) && !expired_at(r.GetSession().GetExpiresAt(fosite.AccessToken), r.GetRequestedAt(), h.HMACSHAStrategyUnPrefixed.Config.GetAccessTokenLifespan(ctx), $now)
 //@   ensures [C06.access-token-authentic] err == nil ==> authentic(h.HMACSHAStrategyUnPrefixed.Enigma, strings.TrimPrefix(token, h.getPrefix("at")))
 //@ func (*HMACSHAStrategy).ValidateAuthorizeCode
 //@   requires h != nil && r != nil && h.HMACSHAStrategyUnPrefixed != nil && h.HMACSHAStrategyUnPrefixed.Enigma != nil
@@ -400,6 +407,7 @@ package oauth2
 //@ func (*HMACSHAStrategy).ValidateRefreshToken
 //@   requires h != nil && r != nil && h.HMACSHAStrategyUnPrefixed != nil && h.HMACSHAStrategyUnPrefixed.Enigma != nil
 //@   ensures [C07.refresh-token-expiry] err == nil && r.GetSession().GetExpiresAt(fosite.RefreshToken) != 0 ==> $now >= old($now) && !(r.GetSession().GetExpiresAt(fosite.RefreshToken) < $now)
+//@   ensures [C09.active-only-while-unexpired] err == nil && r.GetSession().GetExpiresAt(fosite.RefreshToken) != 0 ==> $now >= old($now) && !(r.GetSession().GetExpiresAt(fosite.RefreshToken) < $now)
 //@   ensures [C06.refresh-token-authentic] err == nil ==> authentic(h.HMACSHAStrategyUnPrefixed.Enigma, strings.TrimPrefix(token, h.getPrefix("rt")))
 
 // ---------------------------------------------------------------- C08: revocation
